@@ -50,7 +50,7 @@ type sliceSource struct {
 	rows   []*core.FlatRow
 }
 
-func (s *sliceSource) GetGroupBy() []core.GroupBy    { return nil }
+func (s *sliceSource) GetGroupBy() []core.GroupBy   { return nil }
 func (s *sliceSource) GetResolution() time.Duration { return time.Second }
 func (s *sliceSource) GetAsOf() time.Time           { return time.Time{} }
 func (s *sliceSource) GetUntil() time.Time          { return time.Time{} }
